@@ -1142,6 +1142,15 @@ func TestWriteTemplates(t *testing.T) {
 						seen[f.Sig] = true
 						s.Violation("write", f.Sig, f.Msg, f.Size, c)
 					}
+					if fl != nil && fl[0] == "--fmt" {
+						c.ROSpok = true // the same with a spokfile that cannot be written
+						s.Eval()
+						s.Class("enumerated_ordinary_project")
+						if f := execWrite(s, b, c); f != nil && !seen[f.Sig] {
+							seen[f.Sig] = true
+							s.Violation("write", f.Sig, f.Msg, f.Size, c)
+						}
+					}
 				}
 			}
 		}
